@@ -1,4 +1,5 @@
 """C10 — Every IDE query answers on every workspace, however broken (panic reachability, query cycles, unbounded recursion)."""
+from lib.report import lookup_reviewed as RP_lookup
 from lib import flow as FL
 from lib import panics as PN
 from lib import pcache
@@ -63,7 +64,7 @@ def run(F, res, tier):
             if why:
                 res.ob("Q1", full, desc, True, where=f.loc(ln), how="discharged: " + why)
                 continue
-            rv = reviewed.get("Q1/" + full)
+            rv = RP_lookup(reviewed, "Q1/" + full, FL.guard_signature(F, f, b, defs))
             if rv:
                 guards = FL.guard_signature(F, f, b, defs)
                 if rv.get("guards", []) == guards:
@@ -148,6 +149,7 @@ def run(F, res, tier):
     # ---- Q5: every recursive cycle of the call graph in crates ide is either structural on a finite tree
     # (reviewed) or carries a checkable cycle cut
     recursion(F, res, seen)
+    declared_everywhere(F, res)
 
 
 TREE = {
@@ -272,3 +274,39 @@ def cut_alias(F):
     return ok, ("the other recursive calls descend a TypeRef tree; expanding a type alias pushes it on alias_stack first and is skipped when "
                 "the alias is already on it" if ok else
                 "alias expansion recurses into the alias body without a visited-stack test: a recursive alias never terminates")
+
+
+def declared_everywhere(F, res):
+    """Q6: every definition interned by module_scope_with_map_query is also recorded in `declarations`, on every path of
+    its loop iteration. dependency_order lists a file's functions from `declarations`, and infer_function_query expects
+    (`.expect(..)`) to find every interned function in one of the groups: a function that is interned but not declared —
+    e.g. the second of two functions with one name, if recording became conditional — panics every query that needs it."""
+    fn = F.fn("ide::def::scope::module_scope_with_map_query")
+    d = FL.Defs(fn)
+    loops = [(tail, head, fn.natural_loop(tail, head)) for tail, head in fn.back_edges()]
+    pushes = []
+    for b, t in fn.calls():
+        if FL.short(callee(t) or callee_def(t)) != "Vec::push":
+            continue
+        dep = FL.depends(F, fn, d, t["args"][0])
+        if any(c.endswith("Entry::or_default") or "or_insert" in c for c in dep["calls"]) and any(c.endswith("IndexMap::entry") or c.endswith("HashMap::entry") for c in dep["calls"]):
+            pushes.append(b)
+    n = 0
+    for b, t in fn.calls():
+        c = FL.short(callee(t) or callee_def(t))
+        if not c.startswith("InternDatabase::intern_") or c.endswith("intern_import"):
+            continue
+        n += 1
+        inner = [l for l in loops if b in l[2]]
+        inner.sort(key=lambda l: len(l[2]))
+        ok, why = False, "not inside a loop"
+        if inner:
+            tail, head, body = inner[0]
+            mine = [p_ for p_ in pushes if p_ in body]
+            # can the iteration end (reach the back edge's tail and go round) without recording?
+            leak = fn.can_reach(b, [tail], avoid=mine) if mine else True
+            ok = bool(mine) and not leak
+            why = "recording pushes in this loop: %d; the iteration can end without one: %s" % (len(mine), leak)
+        res.ob("Q6", "declared/%s" % c.rsplit("intern_", 1)[-1], "every %s interned here is pushed into ModuleScope.declarations on every path of the iteration"
+               % c.rsplit("intern_", 1)[-1], ok, where=fn.loc(t["ln"]), how=why)
+    res.floor("definition kinds interned in module_scope_with_map_query", n, 4)
